@@ -353,6 +353,31 @@ pub fn gen_pairs(seed: u64, n: usize) -> Vec<(String, String)> {
                 _ => b.push_str(&chunk(&mut rng, &vocab, 2)),
             }
         }
+        // interned names: A defines many control sequences (some with multi-byte letters made letters),
+        // B reads a few of them and defines more, so key order in the interner matters after the restore
+        if rng.chance(1, 3) {
+            let n = 20 + rng.below(60);
+            let mut names: Vec<String> = vec![];
+            for j in 0..n {
+                let mut name = String::from("n");
+                let mut v = j * 7919 + rng.below(1000);
+                for _ in 0..(2 + v % 5) {
+                    name.push((b'a' + (v % 26) as u8) as char);
+                    v /= 3;
+                }
+                name.push((b'a' + (j % 26) as u8) as char);
+                name.push((b'a' + ((j / 26) % 26) as u8) as char);
+                names.push(name);
+            }
+            for (j, nm) in names.iter().enumerate() {
+                a.push_str(&format!("\\def\\{nm}{{{j}}}"));
+            }
+            for _ in 0..4 {
+                let j = rng.below(n) as usize;
+                b.push_str(&format!("[\\{}]", names[j]));
+            }
+            b.push_str("\\def\\nnewone{N}\\let\\nnewtwo=\\nnewone [\\nnewtwo]");
+        }
         b.push_str("[\\the\\count1][\\the\\dimen1][\\the\\catcode`a][\\ma][\\xa]");
         let all = format!("{a}{b}");
         if ["endinput", "\\read", "\\input", "openin", "tracingmacros", "jobname"].iter().any(|w| all.contains(w)) {
